@@ -2,6 +2,7 @@ package gosx
 
 import (
 	"fmt"
+	"regexp"
 	"go/types"
 	"math"
 	"strconv"
@@ -116,6 +117,10 @@ func init() {
 		vpkg + "StrEq":   func(m *Machine, _ *frame, _ *ssa.Function, a []Value) Value { return m.strEq(a[0].(Str), a[1].(Str)) },
 		vpkg + "StrLess": func(m *Machine, _ *frame, _ *ssa.Function, a []Value) Value { return m.strLess(a[0].(Str), a[1].(Str)) },
 		vpkg + "Observe": func(m *Machine, _ *frame, _ *ssa.Function, a []Value) Value { return nil },
+		vpkg + "FixedSchedule": func(m *Machine, _ *frame, _ *ssa.Function, a []Value) Value {
+			m.fixedSchedule = tT(a[0]).Val != 0
+			return nil
+		},
 		vpkg + "Symbolic": func(m *Machine, _ *frame, _ *ssa.Function, a []Value) Value { return m.C.True },
 		vpkg + "F64Lt": func(m *Machine, _ *frame, _ *ssa.Function, a []Value) Value { return m.C.FLt(tT(a[0]), tT(a[1])) },
 		vpkg + "F64Eq": func(m *Machine, _ *frame, _ *ssa.Function, a []Value) Value { return m.C.FEq(tT(a[0]), tT(a[1])) },
@@ -197,6 +202,59 @@ func init() {
 			m.block(func() bool { return *c == 0 })
 			return nil
 		},
+		"(*sync.Pool).Get": func(m *Machine, caller *frame, _ *ssa.Function, a []Value) Value {
+			st := (*a[0].(*Value)).(Struct)
+			newFn := st[len(st)-1]
+			if isNilFunc(newFn) || newFn == nil {
+				return Iface{}
+			}
+			return m.call(caller, newFn, nil)
+		},
+		"(*sync.Pool).Put": nop,
+		// uilive (terminal repainting): a writer that discards
+		"github.com/gosuri/uilive.New": func(m *Machine, _ *frame, fn *ssa.Function, a []Value) Value {
+			cell := new(Value)
+			*cell = m.zero(deref(fn.Signature.Results().At(0).Type()))
+			return cell
+		},
+		"(*github.com/gosuri/uilive.Writer).Flush": func(m *Machine, _ *frame, fn *ssa.Function, a []Value) Value { return Iface{} },
+		"(*github.com/gosuri/uilive.Writer).Start": nop,
+		"(*github.com/gosuri/uilive.Writer).Stop":  nop,
+		"(*github.com/gosuri/uilive.Writer).Write": func(m *Machine, _ *frame, fn *ssa.Function, a []Value) Value {
+			return Tuple{m.mkInt(int64(len(a[1].(Slice).A))), Iface{}}
+		},
+		"runtime.Callers": func(m *Machine, _ *frame, _ *ssa.Function, a []Value) Value { return m.mkInt(0) },
+		"runtime.Caller": func(m *Machine, _ *frame, fn *ssa.Function, a []Value) Value { return m.zeroResults(fn) },
+		// regexp: native bridge for concrete patterns; the pattern string (possibly symbolic) is kept
+		// so that harnesses can inspect the regex source the code under test builds.
+		"regexp.Compile": func(m *Machine, _ *frame, fn *ssa.Function, a []Value) Value {
+			p, err := m.regexpObj(a[0].(Str))
+			if err != nil {
+				return Tuple{(*Value)(nil), m.mkError(err.Error())}
+			}
+			return Tuple{p, Iface{}}
+		},
+		"regexp.MustCompile": func(m *Machine, _ *frame, fn *ssa.Function, a []Value) Value {
+			p, err := m.regexpObj(a[0].(Str))
+			if err != nil {
+				panic(targetPanic{Iface{T: types.Typ[types.String], V: Str{S: "regexp: Compile: " + err.Error()}}})
+			}
+			return p
+		},
+		"(*regexp.Regexp).MatchString": func(m *Machine, _ *frame, fn *ssa.Function, a []Value) Value {
+			re := m.regexpOf(a[0])
+			subj := a[1].(Str)
+			if ns := normStr(m.strBytes(subj)); ns.B == nil && re.re != nil {
+				return m.C.Bool(re.re.MatchString(ns.S))
+			}
+			m.natives["regexp.lastSubject"] = subj
+			m.abort("unsupported: regexp match with symbolic pattern or subject")
+			return nil
+		},
+		"(*regexp.Regexp).String": func(m *Machine, _ *frame, fn *ssa.Function, a []Value) Value { return m.regexpOf(a[0]).src },
+		"regexp.QuoteMeta": func(m *Machine, _ *frame, fn *ssa.Function, a []Value) Value {
+			return Str{S: regexp.QuoteMeta(m.concStr(a[0], "regexp.QuoteMeta"))}
+		},
 		"runtime.GOMAXPROCS": func(m *Machine, _ *frame, _ *ssa.Function, a []Value) Value { return m.mkInt(1) },
 		"runtime.NumCPU":     func(m *Machine, _ *frame, _ *ssa.Function, a []Value) Value { return m.mkInt(1) },
 		"runtime.Gosched":    func(m *Machine, _ *frame, _ *ssa.Function, a []Value) Value { m.yield(); return nil },
@@ -242,6 +300,14 @@ func init() {
 		},
 		"internal/bytealg.Index": func(m *Machine, _ *frame, _ *ssa.Function, a []Value) Value {
 			return m.indexStr(sliceBytes(a[0].(Slice)), sliceBytes(a[1].(Slice)))
+		},
+		"internal/bytealg.MakeNoZero": func(m *Machine, _ *frame, _ *ssa.Function, a []Value) Value {
+			n := m.concInt(tT(a[0]), 1<<20)
+			out := make([]Value, n)
+			for i := range out {
+				out[i] = m.C.Const(8, 0)
+			}
+			return Slice{A: out}
 		},
 		"internal/bytealg.Cutover": func(m *Machine, _ *frame, _ *ssa.Function, a []Value) Value { return m.mkInt(1 << 30) },
 		"strings.Index": func(m *Machine, _ *frame, _ *ssa.Function, a []Value) Value {
@@ -773,5 +839,51 @@ func sortSliceIntr(m *Machine, caller *frame, _ *ssa.Function, a []Value) Value 
 			storeInto(&sl.A[j-1], tmp)
 		}
 	}
+	return nil
+}
+
+type regexpNative struct {
+	src Str
+	re  *regexp.Regexp
+}
+
+// regexpObj builds the engine-side regexp object; symbolic patterns are kept uncompiled.
+func (m *Machine) regexpObj(pat Str) (*Value, error) {
+	rn := &regexpNative{src: pat}
+	if ns := normStr(m.strBytes(pat)); ns.B == nil {
+		re, err := regexp.Compile(ns.S)
+		if err != nil {
+			return nil, err
+		}
+		rn.re = re
+	}
+	m.natives["regexp.lastPattern"] = pat
+	cell := new(Value)
+	*cell = &Native{Kind: "regexp", Obj: rn}
+	return cell, nil
+}
+
+func (m *Machine) regexpOf(v Value) *regexpNative {
+	p, _ := v.(*Value)
+	if p == nil {
+		m.throw("invalid memory address or nil pointer dereference")
+	}
+	n, ok := (*p).(*Native)
+	if !ok {
+		m.abort("unsupported: regexp object not created through Compile")
+	}
+	return n.Obj.(*regexpNative)
+}
+
+func (m *Machine) mkError(msg string) Value {
+	errPkg := m.P.Prog.ImportedPackage("errors")
+	if errPkg != nil {
+		if et := errPkg.Type("errorString"); et != nil {
+			cell := new(Value)
+			*cell = Struct{Str{S: msg}}
+			return Iface{T: types.NewPointer(et.Type()), V: cell}
+		}
+	}
+	m.abort("errors package not loaded")
 	return nil
 }
